@@ -163,6 +163,7 @@ def trace_oracle_fifo(summary):
 
 
 EXTRA_TARGETS = ["wvsearch"]
+evidence_extra = mc.cert_stats
 
 
 def run_case(case):
